@@ -1,7 +1,25 @@
 (** * C18, second half: the merged answer of a cluster equals the answer of one lmd
       holding all backends (proofs about C18/ClusterQuery.v)
 
-    STATUS: see the summary at the end of the file. *)
+    STATUS: every statement of this file is proved for ALL schemas, configurations,
+    requests and partitions; there are no [_partial] and no [_refuted] theorems.
+    The property level statements [C18_cluster_*] and [Print Assumptions] (all
+    "Closed under the global context") are at the end of the file.
+
+    1. lists        [subperm] (sub-multiset), permutation lemmas
+    2. sorting      [isort_eqv_pointwise], [cluster_topk] (top-k of the nodes' top-k's)
+    3./4. one node  the sub request changes Limit/Offset/Backends/format only
+                    ([hits_of_node] .. by computation, [selected_node]); [node_answer_data],
+                    [node_hits_window] (C06 applied to the node), [node_total_cases]
+    5./6. data      [cluster_window_sorted], [cluster_window_unsorted], [cluster_early];
+                    [cluster_data_vs_spec], [cluster_data_vs_single], [cluster_data_subperm],
+                    [cluster_data_total], [cluster_data_unsorted_exact], [cluster_data_plain_perm]
+    7. failed       [cluster_failed_spec], [all_unknown_perm]
+    8. stats        [apply_acc_merge] (Filter.ApplyValue = merge of the engine on engine
+                    accumulators), [acc_rows_perm], [cluster_merge_table],
+                    [cluster_stats_exact], [stats_result_perm], [cluster_stats_vs_single]
+    9.-11.          responses: [answers_like], [cluster_core_answers_like], [cluster_example],
+                    the theorems about [cluster_respond] *)
 From LMD Require Import QE.Engine QE.WindowProofs C01.Proofs C04.Proofs C05.Proofs C05.GroupByProofs
                         C18.ClusterQuery.
 From Coq Require Import Sorting.Sorted Permutation.
@@ -503,13 +521,1098 @@ Proof.
 Qed.
 
 Lemma node_total_exact schema cfg fmt node rq :
-  rq_stats rq = [] -> (fmt = FmtWrapped \/ backend_limit rq = None) -> (0 <= rq_offset rq)%Z ->
+  rq_stats rq = [] -> (fmt = FmtWrapped \/ backend_limit rq = None) ->
   na_total (node_answer schema cfg fmt node rq) = length (spec_hits schema cfg node rq).
 Proof.
-  intros Hs H Hoff. destruct (node_answer_data schema cfg fmt node rq Hs) as [_ ->].
+  intros Hs H. destruct (node_answer_data schema cfg fmt node rq Hs) as [_ ->].
   rewrite spec_hits_per. apply impl_total_full. destruct H as [->|Hn]; [right; reflexivity|left].
   destruct (backend_limit (nreq fmt node rq)) as [k|] eqn:B; [|reflexivity]. exfalso.
   destruct (node_backend_limit fmt node rq k B) as [l [Hl [Hl0 [Hd [Hpos _]]]]].
   unfold backend_limit in Hn. rewrite Hl, Hd in Hn. cbv zeta in Hn.
   destruct (Z.leb_spec (l + rq_offset rq) 0); [lia|discriminate].
+Qed.
+
+Lemma node_hits_unsorted schema cfg fmt node rq :
+  rq_stats rq = [] -> rq_sort rq = [] ->
+  na_hits (node_answer schema cfg fmt node rq) = window (nreq fmt node rq) (spec_hits schema cfg node rq).
+Proof.
+  intros Hs E. destruct (node_answer_data schema cfg fmt node rq Hs) as [-> _].
+  rewrite spec_hits_per.
+  destruct (backend_limit (nreq fmt node rq)) as [k|] eqn:B.
+  - rewrite <- (sort_hits_nil rq (concat (per_of schema cfg node rq)) E).
+    apply (cut_window_unsorted_exact (nreq fmt node rq) k (per_of schema cfg node rq) B).
+    + cbn. lia.
+    + exact E.
+  - rewrite map_cut_none. rewrite (sort_hits_nil rq _ E). reflexivity.
+Qed.
+
+Lemma node_hits_Lr schema cfg fmt node rq :
+  rq_stats rq = [] -> rq_sort rq <> [] ->
+  (backend_limit (nreq fmt node rq) <> None -> backends_sorted schema cfg node rq) ->
+  eqv_list (Lr rq) (na_hits (node_answer schema cfg fmt node rq))
+           (window (nreq fmt node rq) (isort (Lr rq) (spec_hits schema cfg node rq))).
+Proof.
+  intros Hs E Hsorted.
+  pose proof (spec_hits_wf schema cfg node rq) as Hwf.
+  rewrite <- (sort_hits_Lr rq _ E Hwf).
+  apply eqv_list_Lr.
+  - eapply wf_subperm; [apply node_hits_subperm; exact Hs|exact Hwf].
+  - eapply wf_subperm; [apply subperm_window|]. eapply wf_perm; [apply sort_hits_perm|exact Hwf].
+  - apply (node_hits_window schema cfg fmt node rq Hs Hsorted).
+Qed.
+
+Lemma sum_le_pointwise {X} (a b : X -> nat) (xs : list X) :
+  (forall x, In x xs -> a x <= b x) ->
+  fold_right Nat.add 0 (map a xs) <= fold_right Nat.add 0 (map b xs).
+Proof.
+  induction xs as [|x xs IH]; intros H; cbn [map fold_right]; [lia|].
+  pose proof (H x (or_introl eq_refl)). assert (forall y, In y xs -> a y <= b y) as H' by (intros y Hy; apply H; right; exact Hy).
+  specialize (IH H'). lia.
+Qed.
+
+Lemma sum_exact_or_big {X} (t n : X -> nat) (o : nat) (xs : list X) :
+  (forall x, In x xs -> t x = n x \/ o < t x) ->
+  fold_right Nat.add 0 (map t xs) <= o ->
+  fold_right Nat.add 0 (map t xs) = fold_right Nat.add 0 (map n xs).
+Proof.
+  induction xs as [|x xs IH]; intros H Hle; cbn [map fold_right] in *; [reflexivity|].
+  destruct (H x (or_introl eq_refl)) as [E|E]; [|lia].
+  rewrite IH; [lia| |lia]. intros y Hy. apply H. right; exact Hy.
+Qed.
+
+
+(** ** 5. The merged rows of a data request *)
+Section ClusterData.
+  Variables (schema : list tschema) (cfg : config) (fps : list (ofmt * dataset)) (ds : dataset) (rq : request).
+  Hypothesis Hstats : rq_stats rq = [].
+
+  Let nodes : list dataset := map snd fps.
+  Let answers : list node_ans := cluster_answers schema cfg fps rq.
+  Let merged : list hit := concat (map na_hits answers).
+
+  Lemma merged_subperm : subperm merged (spec_hits schema cfg (concat nodes) rq).
+  Proof.
+    rewrite spec_hits_concat. apply subperm_concat.
+    unfold answers, cluster_answers, nodes. rewrite !map_map.
+    apply Forall2_map_same. intros [f node] _. cbn [fst snd]. apply node_hits_subperm, Hstats.
+  Qed.
+
+  Lemma merged_wf : Forall (hit_wf rq) merged.
+  Proof. eapply wf_subperm; [apply merged_subperm|apply spec_hits_wf]. Qed.
+
+  Lemma cluster_total_sum :
+    cluster_total answers = fold_right Nat.add 0 (map na_total answers).
+  Proof.
+    unfold cluster_total. destruct (Nat.eqb_spec (fold_right Nat.add 0 (map na_total answers)) 0) as [E|_];
+      [|reflexivity].
+    rewrite E. fold merged.
+    assert (length merged <= fold_right Nat.add 0 (map na_total answers)) as H; [|lia].
+    unfold merged. rewrite length_concat_sum, map_map. apply sum_le_pointwise.
+    intros a Ha. unfold answers, cluster_answers in Ha. apply in_map_iff in Ha as [[f node] [<- _]].
+    apply (node_answer_length_le_total schema cfg f node rq Hstats).
+  Qed.
+
+  Lemma sum_nodes_spec :
+    fold_right Nat.add 0 (map (fun fp => length (spec_hits schema cfg (snd fp) rq)) fps) =
+    length (spec_hits schema cfg (concat nodes) rq).
+  Proof.
+    rewrite spec_hits_concat, length_concat_sum. unfold nodes. rewrite !map_map. reflexivity.
+  Qed.
+
+  Lemma cluster_total_exact :
+    (Forall (fun fp => fst fp = FmtWrapped) fps \/ backend_limit rq = None) ->
+    cluster_total answers = length (spec_hits schema cfg (concat nodes) rq).
+  Proof.
+    intros H. rewrite cluster_total_sum, <- sum_nodes_spec.
+    unfold answers, cluster_answers. rewrite map_map. apply sum_map_ext_in.
+    intros [f node] Hin. cbn [fst snd]. apply (node_total_exact schema cfg f node rq Hstats).
+    destruct H as [H|H]; [left|right; exact H].
+    rewrite Forall_forall in H. exact (H (f, node) Hin).
+  Qed.
+
+  (** when the merge answers "offset beyond the result", the window over all
+      matching rows is empty as well (although the local total can be truncated) *)
+  Lemma cluster_early {A} (l : list A) :
+    (0 <= rq_offset rq)%Z ->
+    (Z.of_nat (cluster_total answers) < rq_offset rq)%Z ->
+    length l = length (spec_hits schema cfg (concat nodes) rq) -> window rq l = [].
+  Proof.
+    intros Hoff Hlt Hlen.
+    destruct (rq_limit rq) as [lim|] eqn:Hl.
+    - destruct (Z.le_gt_cases lim 0) as [H0|H0]; [apply (window_nil_limit rq l lim Hl H0)|].
+      apply window_nil_short. rewrite Hlen, <- sum_nodes_spec.
+      rewrite cluster_total_sum in Hlt. unfold answers, cluster_answers in Hlt. rewrite map_map in Hlt.
+      rewrite <- (sum_exact_or_big (fun fp => na_total (node_answer schema cfg (fst fp) (snd fp) rq))
+                                   (fun fp => length (spec_hits schema cfg (snd fp) rq))
+                                   (Z.to_nat (rq_offset rq)) fps); [lia| |lia].
+      intros [f node] _. cbn [fst snd]. apply (node_total_cases schema cfg f node rq Hstats Hoff).
+      intros l0 E. rewrite Hl in E. injection E as <-. lia.
+    - apply window_nil_short. rewrite Hlen, <- sum_nodes_spec.
+      rewrite cluster_total_sum in Hlt. unfold answers, cluster_answers in Hlt. rewrite map_map in Hlt.
+      rewrite <- (sum_exact_or_big (fun fp => na_total (node_answer schema cfg (fst fp) (snd fp) rq))
+                                   (fun fp => length (spec_hits schema cfg (snd fp) rq))
+                                   (Z.to_nat (rq_offset rq)) fps); [lia| |lia].
+      intros [f node] _. cbn [fst snd]. apply (node_total_cases schema cfg f node rq Hstats Hoff).
+      intros l0 E. rewrite Hl in E. discriminate.
+  Qed.
+
+  (** *** unsorted *)
+  Definition nwin {A} (l : list A) : list A :=
+    match node_limit rq with Some m => firstn (Z.to_nat m) l | None => l end.
+
+  Lemma merged_unsorted :
+    rq_sort rq = [] ->
+    merged = concat (map (fun node => nwin (spec_hits schema cfg node rq)) nodes).
+  Proof.
+    intros E. unfold merged, answers, cluster_answers, nodes. rewrite !map_map. f_equal.
+    apply map_ext. intros [f node]. cbn [fst snd].
+    rewrite (node_hits_unsorted schema cfg f node rq Hstats E). reflexivity.
+  Qed.
+
+  Lemma cluster_window_unsorted :
+    rq_sort rq = [] -> (0 <= rq_offset rq)%Z ->
+    window rq (sort_hits rq merged) = window rq (spec_hits schema cfg (concat nodes) rq).
+  Proof.
+    intros E Hoff. rewrite (sort_hits_nil rq _ E), (merged_unsorted E), spec_hits_concat.
+    unfold nwin, node_limit. destruct (rq_limit rq) as [l|] eqn:Hl.
+    - destruct (Z.le_gt_cases l 0) as [H0|H0]; [rewrite !(window_nil_limit rq _ l Hl H0); reflexivity|].
+      destruct (Z.eqb_spec l 0) as [->|_]; [lia|].
+      rewrite <- (map_map (fun node => spec_hits schema cfg node rq) (firstn (Z.to_nat (l + rq_offset rq)))).
+      apply (window_cut_exact rq l _ _ Hl). lia.
+    - reflexivity.
+  Qed.
+
+  (** *** sorted *)
+  Hypothesis Hperm : Permutation (concat nodes) ds.
+
+  Lemma backends_sorted_part node :
+    In node nodes -> backends_sorted schema cfg ds rq -> backends_sorted schema cfg node rq.
+  Proof.
+    intros Hn H bk Hbk. apply H. unfold bks_of in *.
+    apply contributing_spec in Hbk as [Hin Hrest]. apply contributing_spec. split; [|exact Hrest].
+    apply (Permutation_in _ Hperm). apply in_concat. exists node. split; assumption.
+  Qed.
+
+  Hypothesis Hsorted : backend_limit rq <> None -> backends_sorted schema cfg ds rq.
+
+  Lemma node_sorted f node :
+    In (f, node) fps -> backend_limit (nreq f node rq) <> None -> backends_sorted schema cfg node rq.
+  Proof.
+    intros Hin B. apply backends_sorted_part.
+    - unfold nodes. apply in_map_iff. exists (f, node). split; [reflexivity|exact Hin].
+    - apply Hsorted. destruct (backend_limit (nreq f node rq)) as [k|] eqn:Bk; [|congruence].
+      destruct (node_backend_limit f node rq k Bk) as [l [Hl [_ [Hd [Hpos _]]]]].
+      unfold backend_limit. rewrite Hl, Hd. cbv zeta.
+      destruct (Z.leb_spec (l + rq_offset rq) 0); [lia|discriminate].
+  Qed.
+
+  Lemma cluster_window_sorted :
+    rq_sort rq <> [] -> (0 <= rq_offset rq)%Z ->
+    eqv_list (Lr rq) (window rq (sort_hits rq merged))
+                     (window rq (sort_hits rq (spec_hits schema cfg ds rq))).
+  Proof.
+    intros E Hoff.
+    rewrite (sort_hits_Lr rq merged E merged_wf).
+    rewrite (sort_hits_Lr rq _ E (spec_hits_wf schema cfg ds rq)).
+    assert (Permutation (concat (map (fun node => spec_hits schema cfg node rq) nodes))
+                        (spec_hits schema cfg ds rq)) as Hp.
+    { rewrite <- spec_hits_concat. apply spec_hits_perm, Hperm. }
+    destruct (rq_limit rq) as [l|] eqn:Hl.
+    - destruct (Z.le_gt_cases l 0) as [H0|H0]; [rewrite !(window_nil_limit rq _ l Hl H0); constructor|].
+      apply (window_Forall2_of_firstn _ rq l (Z.to_nat (l + rq_offset rq)) _ _ Hl); [lia|].
+      eapply (eqv_list_trans (Lr rq) (Lr_trans rq)).
+      + apply (cluster_topk (Lr rq) (Lr_total rq) (Lr_trans rq) _
+                 (map (fun node => spec_hits schema cfg node rq) nodes)).
+        unfold answers, cluster_answers, nodes. rewrite !map_map.
+        apply Forall2_map_same. intros [f node] Hin. cbn [fst snd].
+        pose proof (node_hits_Lr schema cfg f node rq Hstats E (node_sorted f node Hin)) as H.
+        unfold nreq in H. rewrite window_node in H. unfold node_limit in H. rewrite Hl in H.
+        destruct (Z.eqb_spec l 0) as [->|_]; [lia|]. exact H.
+      + apply Forall2_firstn. apply (isort_perm_eqv (Lr rq) (Lr_total rq) (Lr_trans rq)). exact Hp.
+    - apply Forall2_window.
+      eapply (eqv_list_trans (Lr rq) (Lr_trans rq)).
+      + apply (isort_eqv_pointwise (Lr rq) (Lr_trans rq)).
+        instantiate (1 := concat (map (isort (Lr rq)) (map (fun node => spec_hits schema cfg node rq) nodes))).
+        apply Forall2_concat.
+        unfold answers, cluster_answers, nodes. rewrite !map_map.
+        apply Forall2_map_same. intros [f node] Hin. cbn [fst snd].
+        pose proof (node_hits_Lr schema cfg f node rq Hstats E (node_sorted f node Hin)) as H.
+        unfold nreq in H. rewrite window_node in H. unfold node_limit in H. rewrite Hl in H. exact H.
+      + apply (isort_perm_eqv (Lr rq) (Lr_total rq) (Lr_trans rq)).
+        eapply Permutation_trans; [apply perm_concat_isort|exact Hp].
+  Qed.
+End ClusterData.
+
+(** ** 6. Data requests: the cluster against the specification and the single node *)
+
+Lemma spec_window_wf schema cfg ds rq :
+  Forall (hit_wf rq) (window rq (sort_hits rq (spec_hits schema cfg ds rq))).
+Proof.
+  eapply wf_subperm; [apply subperm_window|]. eapply wf_perm; [apply sort_hits_perm|apply spec_hits_wf].
+Qed.
+
+(** the rows of the merged answer are distinct matching rows of the dataset *)
+Theorem cluster_data_subperm schema cfg fps ds rq :
+  rq_stats rq = [] -> Permutation (concat (map snd fps)) ds ->
+  subperm (fst (cluster_data rq (cluster_answers schema cfg fps rq))) (spec_hits schema cfg ds rq).
+Proof.
+  intros Hs Hp. unfold cluster_data. destruct (Z.ltb _ _); cbn [fst]; [apply subperm_nil|].
+  eapply subperm_trans; [apply subperm_window|].
+  eapply subperm_trans; [apply subperm_of_perm, sort_hits_perm|].
+  eapply subperm_trans; [apply (merged_subperm schema cfg fps rq Hs)|].
+  apply subperm_of_perm, spec_hits_perm, Hp.
+Qed.
+
+(** same sort keys at every position and same number of rows as the window
+    [Offset, Offset+Limit) of all matching rows sorted *)
+Theorem cluster_data_vs_spec schema cfg fps ds rq :
+  rq_stats rq = [] -> Permutation (concat (map snd fps)) ds -> (0 <= rq_offset rq)%Z ->
+  (backend_limit rq <> None -> backends_sorted schema cfg ds rq) ->
+  map h_keys (fst (cluster_data rq (cluster_answers schema cfg fps rq))) =
+    map h_keys (fst (data_result_spec schema cfg ds rq)) /\
+  length (fst (cluster_data rq (cluster_answers schema cfg fps rq))) =
+    length (fst (data_result_spec schema cfg ds rq)).
+Proof.
+  intros Hs Hp Hoff Hsorted.
+  pose proof (cluster_data_subperm schema cfg fps ds rq Hs Hp) as Hsub.
+  pose proof (Permutation_length (spec_hits_perm schema cfg _ _ rq Hp)) as Hlen.
+  change (fst (data_result_spec schema cfg ds rq))
+    with (window rq (sort_hits rq (spec_hits schema cfg ds rq))).
+  revert Hsub. unfold cluster_data.
+  destruct (Z.ltb_spec (Z.of_nat (cluster_total (cluster_answers schema cfg fps rq))) (rq_offset rq))
+    as [Hlt|Hge]; cbn [fst]; intros Hsub.
+  - rewrite (cluster_early schema cfg fps rq Hs (sort_hits rq (spec_hits schema cfg ds rq)) Hoff Hlt).
+    + split; reflexivity.
+    + rewrite sort_hits_length. symmetry. exact Hlen.
+  - destruct (sort_dec rq) as [E|E].
+    + rewrite (cluster_window_unsorted schema cfg fps rq Hs E Hoff) in *.
+      rewrite (sort_hits_nil rq _ E).
+      assert (length (window rq (spec_hits schema cfg (concat (map snd fps)) rq)) =
+              length (window rq (spec_hits schema cfg ds rq))) as Hl.
+      { rewrite !window_length, Hlen. reflexivity. }
+      split; [|exact Hl].
+      apply (unsorted_keys_same rq _ _ E); [|
+        eapply wf_subperm; [apply subperm_window|apply spec_hits_wf]|exact Hl].
+      eapply wf_subperm; [apply subperm_window|apply spec_hits_wf].
+    + pose proof (cluster_window_sorted schema cfg fps ds rq Hs Hp Hsorted E Hoff) as H.
+      apply eqv_list_Lr in H.
+      * split; [|apply (eqv_list_length _ _ _ H)].
+        apply (eqv_list_keys rq); [| |exact H].
+        -- eapply wf_subperm; [exact Hsub|apply spec_hits_wf].
+        -- apply spec_window_wf.
+      * eapply wf_subperm; [exact Hsub|apply spec_hits_wf].
+      * apply spec_window_wf.
+Qed.
+
+(** ... hence as the single node [data_result] (which has the early cut-off) *)
+Theorem cluster_data_vs_single schema cfg fps ds rq :
+  rq_stats rq = [] -> Permutation (concat (map snd fps)) ds -> (0 <= rq_offset rq)%Z ->
+  (backend_limit rq <> None -> backends_sorted schema cfg ds rq) ->
+  map h_keys (fst (cluster_data rq (cluster_answers schema cfg fps rq))) =
+    map h_keys (fst (data_result schema cfg ds rq)) /\
+  length (fst (cluster_data rq (cluster_answers schema cfg fps rq))) =
+    length (fst (data_result schema cfg ds rq)).
+Proof.
+  intros Hs Hp Hoff Hsorted.
+  destruct (cluster_data_vs_spec schema cfg fps ds rq Hs Hp Hoff Hsorted) as [Hk Hl].
+  destruct (backend_limit rq) as [k|] eqn:B.
+  - destruct (C06_window_default_order schema cfg ds rq k B Hoff) as [Hk' Hl'].
+    + apply Hsorted. discriminate.
+    + rewrite Hk', Hl'. split; assumption.
+  - rewrite (C06_window_no_cut schema cfg ds rq B). split; assumption.
+Qed.
+
+(** total_count *)
+Theorem cluster_data_total schema cfg fps ds rq :
+  rq_stats rq = [] -> Permutation (concat (map snd fps)) ds ->
+  (Forall (fun fp => fst fp = FmtWrapped) fps \/ backend_limit rq = None) ->
+  snd (cluster_data rq (cluster_answers schema cfg fps rq)) = length (spec_hits schema cfg ds rq).
+Proof.
+  intros Hs Hp H.
+  assert (snd (cluster_data rq (cluster_answers schema cfg fps rq)) =
+          cluster_total (cluster_answers schema cfg fps rq)) as ->.
+  { unfold cluster_data. destruct (Z.ltb _ _); reflexivity. }
+  rewrite (cluster_total_exact schema cfg fps rq Hs H).
+  apply Permutation_length, spec_hits_perm, Hp.
+Qed.
+
+(** without Sort header: exactly the rows a single lmd with the backends in
+    node order ([concat parts]) answers, for every Limit and Offset *)
+Theorem cluster_data_unsorted_exact schema cfg fps rq :
+  rq_stats rq = [] -> rq_sort rq = [] -> (0 <= rq_offset rq)%Z ->
+  fst (cluster_data rq (cluster_answers schema cfg fps rq)) =
+  fst (data_result schema cfg (concat (map snd fps)) rq).
+Proof.
+  intros Hs E Hoff.
+  assert (fst (data_result schema cfg (concat (map snd fps)) rq) =
+          window rq (spec_hits schema cfg (concat (map snd fps)) rq)) as ->.
+  { destruct (backend_limit rq) as [k|] eqn:B.
+    - rewrite (C06_window_unsorted_exact schema cfg _ rq k B Hoff E).
+      rewrite data_result_spec_unfold. cbn [fst]. rewrite (sort_hits_nil rq _ E). reflexivity.
+    - rewrite (C06_window_no_cut schema cfg _ rq B).
+      rewrite data_result_spec_unfold. cbn [fst]. rewrite (sort_hits_nil rq _ E). reflexivity. }
+  unfold cluster_data.
+  destruct (Z.ltb_spec (Z.of_nat (cluster_total (cluster_answers schema cfg fps rq))) (rq_offset rq))
+    as [Hlt|Hge]; cbn [fst].
+  - symmetry. apply (cluster_early schema cfg fps rq Hs _ Hoff Hlt). reflexivity.
+  - apply (cluster_window_unsorted schema cfg fps rq Hs E Hoff).
+Qed.
+
+(** no Sort, no Limit, no Offset: the same multiset of rows as the single node *)
+Theorem cluster_data_plain_perm schema cfg fps ds rq :
+  rq_stats rq = [] -> Permutation (concat (map snd fps)) ds ->
+  rq_sort rq = [] -> rq_limit rq = None -> rq_offset rq = 0%Z ->
+  Permutation (fst (cluster_data rq (cluster_answers schema cfg fps rq)))
+              (fst (data_result schema cfg ds rq)).
+Proof.
+  intros Hs Hp E Hl Ho.
+  assert (forall d, fst (data_result schema cfg d rq) = spec_hits schema cfg d rq) as Hplain.
+  { intros d. rewrite C06_window_no_cut by (unfold backend_limit; rewrite Hl; reflexivity).
+    rewrite data_result_spec_unfold. cbn [fst]. rewrite (sort_hits_nil rq _ E).
+    unfold window. rewrite Hl, Ho. reflexivity. }
+  rewrite (cluster_data_unsorted_exact schema cfg fps rq Hs E) by lia.
+  rewrite !Hplain. apply spec_hits_perm, Hp.
+Qed.
+
+(** ** 7. The failed map and the 502 answer *)
+Lemma known_perm ds ds' id : Permutation ds ds' -> known ds id = known ds' id.
+Proof.
+  intros Hp. destruct (known ds id) eqn:K, (known ds' id) eqn:K'; try reflexivity.
+  - apply known_spec in K as [b [Hb He]]. rewrite <- K'. symmetry. apply known_spec.
+    exists b. split; [apply (Permutation_in _ Hp); exact Hb|exact He].
+  - apply known_spec in K' as [b [Hb He]]. rewrite <- K. apply known_spec.
+    exists b. split; [apply (Permutation_in _ (Permutation_sym Hp)); exact Hb|exact He].
+Qed.
+
+Lemma all_unknown_perm ds ds' rq : Permutation ds ds' -> all_unknown ds rq = all_unknown ds' rq.
+Proof.
+  intros Hp. unfold all_unknown. destruct (rq_backends rq) as [|i0 ids]; [reflexivity|].
+  rewrite (List.filter_ext (fun id => negb (known ds id)) (fun id => negb (known ds' id)));
+    [reflexivity|]. intros id. rewrite (known_perm ds ds' id Hp). reflexivity.
+Qed.
+
+Lemma node_failed_spec schema cfg fmt node rq id :
+  In id (na_failed (node_answer schema cfg fmt node rq)) <->
+  is_sites_table (rq_table rq) = false /\
+  exists b, In b (selected_backends node rq) /\ b_avail b = false /\ b_key b = id.
+Proof.
+  unfold node_answer. destruct (sub_backends node rq) as [|i0 ids] eqn:E.
+  - cbn [na_failed In]. rewrite (selected_skipped node rq E). split; [tauto|].
+    intros [_ [b [[] _]]].
+  - rewrite <- E. fold (nreq fmt node rq).
+    assert (sub_backends node rq <> []) as Hne by (rewrite E; discriminate).
+    assert (In id (nodup_str (failed_keys node (nreq fmt node rq))) <->
+            is_sites_table (rq_table rq) = false /\
+            exists b, In b (selected_backends node rq) /\ b_avail b = false /\ b_key b = id) as H.
+    { rewrite in_nodup_str, failed_keys_spec.
+      change (rq_table (nreq fmt node rq)) with (rq_table rq).
+      change (rq_backends (nreq fmt node rq)) with (sub_backends node rq).
+      unfold nreq. rewrite (selected_node fmt node rq Hne).
+      split; [|intros H; right; exact H].
+      intros [[Hin Hno]|H]; [exfalso|exact H].
+      apply Hno. unfold sub_backends in Hin. apply filter_In in Hin as [Hin _].
+      apply in_map_iff in Hin as [b [Hk Hb]]. exists b. split; assumption. }
+    destruct (rq_stats rq); [destruct (data_result schema cfg node (nreq fmt node rq))|];
+      cbn [na_failed]; exact H.
+Qed.
+
+(** the merged failed map has the keys of the single node's *)
+Theorem cluster_failed_spec schema cfg fps ds rq id :
+  Permutation (concat (map snd fps)) ds ->
+  (In id (cluster_failed (concat (map snd fps)) rq (cluster_answers schema cfg fps rq)) <->
+   In id (nodup_str (failed_keys ds rq))).
+Proof.
+  intros Hp. unfold cluster_failed. rewrite !in_nodup_str, in_app_iff, failed_keys_spec.
+  rewrite filter_In, negb_true_iff, (known_perm _ _ id Hp).
+  assert (forall b, In b ds <-> exists fp, In fp fps /\ In b (snd fp)) as Hds.
+  { intros b. split.
+    - intros Hb. apply (Permutation_in _ (Permutation_sym Hp)) in Hb.
+      apply in_concat in Hb as [node [Hn Hb]]. apply in_map_iff in Hn as [fp [<- Hfp]].
+      exists fp. split; assumption.
+    - intros [fp [Hfp Hb]]. apply (Permutation_in _ Hp). apply in_concat.
+      exists (snd fp). split; [apply in_map; exact Hfp|exact Hb]. }
+  split.
+  - intros [[Hin Hk]|Hin].
+    + left. split; [exact Hin|]. intros Hex. apply known_spec in Hex. congruence.
+    + right. apply in_concat in Hin as [l [Hl Hin]].
+      apply in_map_iff in Hl as [a [<- Ha]]. unfold cluster_answers in Ha.
+      apply in_map_iff in Ha as [[f node] [<- Hfp]]. cbn [fst snd] in Hin.
+      apply node_failed_spec in Hin as [Hsites [b [Hb [Hav Hk]]]].
+      split; [exact Hsites|]. exists b. split; [|split; assumption].
+      apply selected_backends_spec in Hb as [Hb Hr]. apply selected_backends_spec.
+      split; [|exact Hr]. apply Hds. exists (f, node). split; assumption.
+  - intros [[Hin Hno]|[Hsites [b [Hb [Hav Hk]]]]].
+    + left. split; [exact Hin|]. destruct (known ds id) eqn:K; [|reflexivity].
+      apply known_spec in K. contradiction.
+    + right. apply selected_backends_spec in Hb as [Hb Hr].
+      apply Hds in Hb as [[f node] [Hfp Hb]]. cbn [snd] in Hb.
+      apply in_concat. exists (na_failed (node_answer schema cfg f node rq)). split.
+      * apply in_map_iff. exists (node_answer schema cfg f node rq). split; [reflexivity|].
+        unfold cluster_answers. apply in_map_iff. exists (f, node). split; [reflexivity|exact Hfp].
+      * apply node_failed_spec. split; [exact Hsites|]. exists b. split; [|split; assumption].
+        apply selected_backends_spec. split; assumption.
+Qed.
+
+(** ** 8. Stats requests *)
+
+(** *** accumulators as the engine produces them *)
+Definition acc_ok (k : option aggk) (a : acc) : Prop :=
+  (0 <= a_cnt a)%Z /\ (a_cnt a = 0%Z -> a_val a = 0%Z) /\ (k = None -> a_val a = (a_cnt a * 1000)%Z).
+
+Lemma acc0_ok k : acc_ok k acc0.
+Proof. unfold acc_ok, acc0. cbn [a_cnt a_val]. repeat split; intros; lia. Qed.
+
+Lemma acc_rows_ok st xs : acc_ok (stat_kind st) (acc_rows st xs).
+Proof.
+  destruct st as [f|k c]; cbn [stat_kind].
+  - rewrite acc_counter. cbv zeta. unfold acc_ok. cbn [a_cnt a_val]. repeat split; intros; lia.
+  - destruct xs as [|x xs]; [apply acc0_ok|].
+    destruct k.
+    + rewrite acc_sum by auto. unfold acc_ok. cbn [a_cnt a_val length].
+      repeat split; intros; try discriminate; lia.
+    + rewrite acc_sum by auto. unfold acc_ok. cbn [a_cnt a_val length].
+      repeat split; intros; try discriminate; lia.
+    + rewrite acc_min. unfold acc_ok. cbn [a_cnt a_val length].
+      repeat split; intros; try discriminate; lia.
+    + rewrite acc_max. unfold acc_ok. cbn [a_cnt a_val length].
+      repeat split; intros; try discriminate; lia.
+Qed.
+
+Ltac acc_cases :=
+  repeat match goal with
+         | |- context [Z.eqb ?x ?y] => destruct (Z.eqb_spec x y)
+         | |- context [Z.ltb ?x ?y] => destruct (Z.ltb_spec x y)
+         end.
+
+Lemma merge_acc_ok k a b : acc_ok k a -> acc_ok k b -> acc_ok k (merge_acc k a b).
+Proof.
+  destruct a as [va ca], b as [vb cb]. unfold acc_ok. cbn [a_val a_cnt].
+  intros (A1 & A2 & A3) (B1 & B2 & B3).
+  destruct k as [[| | |]|]; cbn [merge_acc a_val a_cnt]; acc_cases; cbn [a_val a_cnt];
+    repeat split; intros; try discriminate; try lia.
+  specialize (A3 eq_refl). specialize (B3 eq_refl). lia.
+Qed.
+
+(** Filter.ApplyValue of a transported accumulator is the merge of the engine *)
+Lemma apply_acc_merge k a b : acc_ok k a -> acc_ok k b -> apply_acc k a b = merge_acc k a b.
+Proof.
+  destruct a as [va ca], b as [vb cb]. unfold acc_ok. cbn [a_val a_cnt].
+  intros (A1 & A2 & A3) (B1 & B2 & B3).
+  destruct k as [[| | |]|]; cbn [apply_acc merge_acc a_val a_cnt]; try reflexivity.
+  - acc_cases; cbn [andb orb]; f_equal; lia.
+  - acc_cases; cbn [andb orb]; f_equal; lia.
+  - specialize (B3 eq_refl). f_equal; lia.
+Qed.
+
+Lemma apply_acc0 k b : acc_ok k b -> apply_acc k acc0 b = b.
+Proof.
+  destruct b as [vb cb]. unfold acc_ok, acc0. cbn [a_val a_cnt]. intros (B1 & B2 & B3).
+  destruct k as [[| | |]|]; cbn [apply_acc a_val a_cnt]; acc_cases; cbn [andb orb]; f_equal; try lia.
+  specialize (B3 eq_refl). lia.
+Qed.
+
+Lemma merge_acc_comm k a b : acc_ok k a -> acc_ok k b -> merge_acc k a b = merge_acc k b a.
+Proof.
+  destruct a as [va ca], b as [vb cb]. unfold acc_ok. cbn [a_val a_cnt].
+  intros (A1 & A2 & A3) (B1 & B2 & B3).
+  destruct k as [[| | |]|]; cbn [merge_acc a_val a_cnt]; acc_cases; f_equal; lia.
+Qed.
+
+(** the accumulator of a row list does not depend on the order of the rows *)
+Lemma acc_rows_perm st xs ys : Permutation xs ys -> acc_rows st xs = acc_rows st ys.
+Proof.
+  induction 1 as [|x l l' _ IH|x y l|l1 l2 l3 _ IH1 _ IH2].
+  - reflexivity.
+  - change (x :: l) with ([x] ++ l). change (x :: l') with ([x] ++ l').
+    rewrite <- !split_invariant, IH. reflexivity.
+  - change (y :: x :: l) with ([y; x] ++ l). change (x :: y :: l) with ([x; y] ++ l).
+    rewrite <- !split_invariant. f_equal.
+    change [y; x] with ([y] ++ [x]). change [x; y] with ([x] ++ [y]).
+    rewrite <- !split_invariant. apply merge_acc_comm; apply acc_rows_ok.
+  - congruence.
+Qed.
+
+Definition accs_ok (rq : request) (l : list acc) : Prop :=
+  Forall2 (fun st a => acc_ok (stat_kind st) a) (rq_stats rq) l.
+
+Lemma map_accs_ok rq (f : stat -> acc) :
+  (forall st, acc_ok (stat_kind st) (f st)) -> accs_ok rq (map f (rq_stats rq)).
+Proof.
+  intros H. unfold accs_ok. induction (rq_stats rq) as [|st l IH]; cbn [map]; constructor; auto.
+Qed.
+
+Lemma group_accs_ok rq xs k : accs_ok rq (group_accs rq xs k).
+Proof. apply map_accs_ok. intros st. apply acc_rows_ok. Qed.
+
+Lemma apply_accs_merge rq a b : accs_ok rq a -> accs_ok rq b -> apply_accs rq a b = merge_accs rq a b.
+Proof.
+  unfold accs_ok, apply_accs, merge_accs. generalize (rq_stats rq) as stats. intros stats Ha.
+  revert b. induction Ha as [|st x stats a Hx _ IH]; intros b Hb; inversion Hb; subst;
+    cbn [combine map2 fst snd]; [reflexivity|].
+  f_equal; [apply apply_acc_merge; assumption|apply IH; assumption].
+Qed.
+
+Lemma merge_accs_ok rq a b : accs_ok rq a -> accs_ok rq b -> accs_ok rq (merge_accs rq a b).
+Proof.
+  unfold accs_ok, merge_accs. generalize (rq_stats rq) as stats. intros stats Ha.
+  revert b. induction Ha as [|st x stats a Hx _ IH]; intros b Hb; inversion Hb; subst;
+    cbn [combine map2 fst snd]; constructor.
+  - apply merge_acc_ok; assumption.
+  - apply IH; assumption.
+Qed.
+
+Lemma apply_accs_acc0 rq b :
+  accs_ok rq b -> apply_accs rq (map (fun _ => acc0) (rq_stats rq)) b = b.
+Proof.
+  unfold accs_ok, apply_accs. generalize (rq_stats rq) as stats. intros stats Hb.
+  induction Hb as [|st x stats b Hx _ IH]; cbn [map combine map2 fst snd]; [reflexivity|].
+  f_equal; [apply apply_acc0; assumption|exact IH].
+Qed.
+
+(** *** one transported line on a table with distinct keys = the merge step of the engine *)
+Lemma cluster_step_tab rq ks (g : key -> list acc) k a :
+  NoDup ks -> accs_ok rq a -> (forall k', accs_ok rq (g k')) ->
+  cluster_stats_step rq (tab ks g) (k, a) = merge_step rq (tab ks g) (k, a).
+Proof.
+  intros Hnd Ha Hg. unfold cluster_stats_step, merge_step. cbn [fst snd].
+  destruct (memk k ks) eqn:M.
+  - apply memk_In in M. destruct (find_tab_in k ks g M) as [v ->].
+    rewrite !upsert_tab_in by assumption. apply tab_ext. intros k' _.
+    destruct (key_eqb k k'); [apply apply_accs_merge; auto|reflexivity].
+  - apply memk_false in M. rewrite (find_tab_notin k ks g M).
+    rewrite upsert_tab_notin by assumption. rewrite apply_accs_acc0 by assumption. reflexivity.
+Qed.
+
+Lemma cluster_fold_tab rq ks2 (g2 : key -> list acc) :
+  NoDup ks2 -> (forall k, accs_ok rq (g2 k)) ->
+  forall ks g, NoDup ks -> (forall k, accs_ok rq (g k)) ->
+  fold_left (cluster_stats_step rq) (tab ks2 g2) (tab ks g) = merge_keyed rq (tab ks g) (tab ks2 g2).
+Proof.
+  intros Hnd2 Hg2. induction ks2 as [|k ks2 IH]; intros ks g Hnd Hg; [reflexivity|].
+  inversion Hnd2 as [|? ? Hni Hnd2']; subst.
+  rewrite merge_keyed_fold. unfold tab at 1 3. cbn [map fold_left].
+  change (map (fun k0 => (k0, g2 k0)) ks2) with (tab ks2 g2).
+  rewrite cluster_step_tab by auto. rewrite merge_step_tab by assumption.
+  rewrite (IH Hnd2'); [rewrite merge_keyed_fold; try rewrite merge_step_tab by assumption; reflexivity|apply NoDup_add_key; exact Hnd|].
+  intros k'. destruct (key_eqb k k'); [|apply Hg]. destruct (memk k ks); [|apply Hg2].
+  apply merge_accs_ok; auto.
+Qed.
+
+(** merging the tables of two row lists whose key lists cover the keys of the rows *)
+Lemma merge_tab_groups rq ks ks2 xs ys :
+  NoDup ks -> NoDup ks2 ->
+  (forall x, In x xs -> In (ctx_key rq x) ks) -> (forall y, In y ys -> In (ctx_key rq y) ks2) ->
+  merge_keyed rq (tab ks (group_accs rq xs)) (tab ks2 (group_accs rq ys)) =
+  tab (fold_left add_key ks2 ks) (group_accs rq (xs ++ ys)).
+Proof.
+  intros Hnd Hnd2 Hx Hy. rewrite merge_tab by assumption. apply tab_ext. intros k' _.
+  replace (group_accs rq (xs ++ ys) k') with
+    (map (fun st => acc_rows st (with_key rq k' xs ++ with_key rq k' ys)) (rq_stats rq))
+    by (unfold group_accs; rewrite with_key_app; reflexivity).
+  destruct (memk k' ks2) eqn:M2.
+  - destruct (memk k' ks) eqn:M1.
+    + unfold group_accs. rewrite merge_accs_maps. apply map_ext. intros st. apply split_invariant.
+    + apply memk_false in M1. rewrite (with_key_absent rq k' xs); [reflexivity|].
+      intros H. apply in_map_iff in H as [x [<- Hin]]. apply M1, Hx, Hin.
+  - apply memk_false in M2. rewrite (with_key_absent rq k' ys); [rewrite app_nil_r; reflexivity|].
+    intros H. apply in_map_iff in H as [y [<- Hin]]. apply M2, Hy, Hin.
+Qed.
+
+Lemma in_fold_add_key k l ks : In k (fold_left add_key l ks) <-> In k ks \/ In k l.
+Proof. rewrite <- !memk_In, memk_fold, orb_true_iff. reflexivity. Qed.
+
+(** the merge of the receiving node over tables of that form *)
+Lemma cluster_merge_tabs rq (l : list (list key * list rowctx)) :
+  Forall (fun p => NoDup (fst p) /\ forall x, In x (snd p) -> In (ctx_key rq x) (fst p)) l ->
+  forall ks xs, NoDup ks -> (forall x, In x xs -> In (ctx_key rq x) ks) ->
+  fold_left (fun m t => fold_left (cluster_stats_step rq) t m)
+            (map (fun p => tab (fst p) (group_accs rq (snd p))) l) (tab ks (group_accs rq xs)) =
+  tab (fold_left add_key (concat (map fst l)) ks) (group_accs rq (xs ++ concat (map snd l))).
+Proof.
+  induction 1 as [|[ks2 ys] l [Hnd2 Hy] _ IH]; intros ks xs Hnd Hx; cbn [map concat fold_left fst snd].
+  - rewrite app_nil_r. reflexivity.
+  - cbn [fst snd] in *.
+    rewrite cluster_fold_tab; [|assumption|intros; apply group_accs_ok|assumption|intros; apply group_accs_ok].
+    rewrite merge_tab_groups by assumption.
+    rewrite IH.
+    + rewrite fold_left_app, app_assoc. reflexivity.
+    + apply NoDup_fold. exact Hnd.
+    + intros x Hin. apply in_fold_add_key. apply in_app_iff in Hin as [Hin|Hin]; [left; apply Hx|right; apply Hy]; exact Hin.
+Qed.
+
+(** *** the raw table of a dataset, in closed form *)
+Definition tkeys (rq : request) (xs : list rowctx) : list key :=
+  match rq_columns rq with [] => [[]] | _ => first_keys (map (ctx_key rq) xs) end.
+
+Definition stats_table (rq : request) (xs : list rowctx) : keyed (list acc) :=
+  tab (tkeys rq xs) (group_accs rq xs).
+
+Lemma all_nil_first_keys (l : list key) :
+  (forall k, In k l -> k = []) -> l <> [] -> first_keys l = [[]].
+Proof.
+  intros Hall Hne. pose proof (first_keys_NoDup l) as Hnd.
+  assert (forall k, In k (first_keys l) -> k = []) as H by (intros k Hk; apply Hall, first_keys_In, Hk).
+  assert (In [] (first_keys l)) as H0.
+  { destruct l as [|k l]; [congruence|]. apply first_keys_In. left. apply Hall. left; reflexivity. }
+  destruct (first_keys l) as [|a [|b r]]; [destruct H0| |].
+  - rewrite (H a (or_introl eq_refl)). reflexivity.
+  - exfalso. inversion Hnd as [|? ? Hni _]; subst. apply Hni.
+    rewrite (H a (or_introl eq_refl)), <- (H b (or_intror (or_introl eq_refl))). left; reflexivity.
+Qed.
+
+Lemma ctx_key_nocols rq x : request_columns rq = [] -> ctx_key rq x = [].
+Proof. unfold ctx_key, stats_key. intros ->. reflexivity. Qed.
+
+Lemma raw_stats_table schema cfg ds rq :
+  rq_stats rq <> [] -> raw_stats schema cfg ds rq = stats_table rq (all_ctxs schema cfg ds rq).
+Proof.
+  intros Hs. unfold raw_stats. cbv zeta.
+  set (bks := filter (contributes rq) (selected_backends ds rq)).
+  assert (Hm : map (stats_backend schema cfg rq) bks = map (grouped rq) (map (ctxs_of schema cfg rq) bks)).
+  { rewrite map_map. apply map_ext. intros bk. apply stats_backend_grouped. }
+  rewrite Hm, merge_all_grouped_nil.
+  change (concat (map (ctxs_of schema cfg rq) bks)) with (all_ctxs schema cfg ds rq).
+  set (all := all_ctxs schema cfg ds rq).
+  unfold stats_table, tkeys. destruct (rq_columns rq) as [|c cs] eqn:Hc.
+  - pose proof (request_columns_nokey rq Hc Hs) as Hk.
+    destruct all as [|x all'].
+    + reflexivity.
+    + unfold grouped. rewrite (all_nil_first_keys (map (ctx_key rq) (x :: all'))).
+      * reflexivity.
+      * intros k Hin. apply in_map_iff in Hin as [y [<- _]]. apply ctx_key_nocols, Hk.
+      * discriminate.
+  - change (tab (first_keys (map (ctx_key rq) all)) (group_accs rq all)) with (grouped rq all).
+    destruct (grouped rq all); reflexivity.
+Qed.
+
+Lemma all_ctxs_app schema cfg a b rq :
+  all_ctxs schema cfg (a ++ b) rq = all_ctxs schema cfg a rq ++ all_ctxs schema cfg b rq.
+Proof.
+  unfold all_ctxs. fold (bks_of (a ++ b) rq) (bks_of a rq) (bks_of b rq).
+  rewrite bks_of_app, map_app, concat_app. reflexivity.
+Qed.
+
+Lemma all_ctxs_concat schema cfg (nodes : list dataset) rq :
+  all_ctxs schema cfg (concat nodes) rq = concat (map (fun node => all_ctxs schema cfg node rq) nodes).
+Proof.
+  induction nodes as [|n nodes IH]; cbn [concat map].
+  - unfold all_ctxs. rewrite selected_backends_filter. reflexivity.
+  - rewrite all_ctxs_app, IH. reflexivity.
+Qed.
+
+Lemma all_ctxs_perm schema cfg ds ds' rq :
+  Permutation ds ds' -> Permutation (all_ctxs schema cfg ds rq) (all_ctxs schema cfg ds' rq).
+Proof.
+  intros H. unfold all_ctxs. fold (bks_of ds rq) (bks_of ds' rq).
+  apply perm_concat_map. apply bks_of_perm. exact H.
+Qed.
+
+Lemma all_ctxs_skipped schema cfg node rq : sub_backends node rq = [] -> all_ctxs schema cfg node rq = [].
+Proof. intros E. unfold all_ctxs. rewrite (selected_skipped node rq E). reflexivity. Qed.
+
+(** *** what a node sends for a Stats request *)
+Definition node_keys (schema : list tschema) (cfg : config) (node : dataset) (rq : request) : list key :=
+  match sub_backends node rq with
+  | [] => []
+  | _ => tkeys rq (all_ctxs schema cfg node rq)
+  end.
+
+Lemma raw_stats_node schema cfg fmt node rq :
+  sub_backends node rq <> [] ->
+  raw_stats schema cfg node (nreq fmt node rq) = raw_stats schema cfg node rq.
+Proof.
+  intros H. unfold raw_stats, nreq. rewrite (selected_node fmt node rq H). reflexivity.
+Qed.
+
+Lemma node_stats_tab schema cfg fmt node rq :
+  rq_stats rq <> [] ->
+  na_stats (node_answer schema cfg fmt node rq) =
+  tab (node_keys schema cfg node rq) (group_accs rq (all_ctxs schema cfg node rq)).
+Proof.
+  intros Hs. unfold node_answer, node_keys.
+  destruct (sub_backends node rq) as [|i0 ids] eqn:E; [reflexivity|].
+  rewrite <- E. fold (nreq fmt node rq).
+  assert (sub_backends node rq <> []) as Hne by (rewrite E; discriminate).
+  pose proof (raw_stats_table schema cfg node rq Hs) as Ht.
+  destruct (rq_stats rq) as [|st sts]; [congruence|]. cbn [na_stats].
+  rewrite (raw_stats_node schema cfg fmt node rq Hne). exact Ht.
+Qed.
+
+Lemma node_keys_ok schema cfg node rq :
+  rq_stats rq <> [] ->
+  NoDup (node_keys schema cfg node rq) /\
+  forall x, In x (all_ctxs schema cfg node rq) -> In (ctx_key rq x) (node_keys schema cfg node rq).
+Proof.
+  intros Hs. unfold node_keys. destruct (sub_backends node rq) as [|i0 ids] eqn:E.
+  - rewrite (all_ctxs_skipped schema cfg node rq E). split; [constructor|intros x []].
+  - unfold tkeys. destruct (rq_columns rq) as [|c cs] eqn:Hc.
+    + split; [constructor; [intros []|constructor]|].
+      intros x _. rewrite (ctx_key_nocols rq x (request_columns_nokey rq Hc Hs)). left; reflexivity.
+    + split; [apply first_keys_NoDup|]. intros x Hx. apply first_keys_In. apply in_map. exact Hx.
+Qed.
+
+Lemma first_keys_idem (l : list key) : first_keys (first_keys l) = first_keys l.
+Proof. exact (fold_add_first_keys l []). Qed.
+
+Lemma first_keys_concat_first_keys (ls : list (list key)) :
+  first_keys (concat (map first_keys ls)) = first_keys (concat ls).
+Proof.
+  induction ls as [|a ls IH]; cbn [map concat]; [reflexivity|].
+  rewrite !first_keys_app, first_keys_idem, IH. reflexivity.
+Qed.
+
+(** the table on the receiving node after all sub results are merged *)
+Lemma cluster_merge_table schema cfg fps rq :
+  rq_stats rq <> [] ->
+  cluster_stats_merge rq (map na_stats (cluster_answers schema cfg fps rq)) =
+  tab (first_keys (concat (map (fun fp => node_keys schema cfg (snd fp) rq) fps)))
+      (group_accs rq (all_ctxs schema cfg (concat (map snd fps)) rq)).
+Proof.
+  intros Hs. unfold cluster_stats_merge, cluster_answers.
+  assert (map na_stats (map (fun fp => node_answer schema cfg (fst fp) (snd fp) rq) fps) =
+          map (fun p => tab (fst p) (group_accs rq (snd p)))
+              (map (fun fp => (node_keys schema cfg (snd fp) rq, all_ctxs schema cfg (snd fp) rq)) fps)) as ->.
+  { rewrite !map_map. apply map_ext. intros [f node]. cbn [fst snd]. apply node_stats_tab, Hs. }
+  change (@nil (list str * list acc)) with (tab [] (group_accs rq [])).
+  rewrite cluster_merge_tabs.
+  - rewrite !map_map. cbn [fst snd app]. rewrite all_ctxs_concat, map_map. reflexivity.
+  - rewrite Forall_forall. intros p Hp. apply in_map_iff in Hp as [[f node] [<- _]]. cbn [fst snd].
+    apply node_keys_ok, Hs.
+  - constructor.
+  - intros x [].
+Qed.
+
+(** THE STATS THEOREM: the cluster answers a Stats request exactly like one lmd
+    that holds the backends in node order *)
+Theorem cluster_stats_exact schema cfg fps rq :
+  rq_stats rq <> [] ->
+  cluster_stats rq (cluster_answers schema cfg fps rq) =
+  stats_result schema cfg (concat (map snd fps)) rq.
+Proof.
+  intros Hs. rewrite stats_result_raw, (raw_stats_table schema cfg _ rq Hs).
+  unfold cluster_stats. rewrite (cluster_merge_table schema cfg fps rq Hs). f_equal.
+  set (XS := all_ctxs schema cfg (concat (map snd fps)) rq).
+  set (KL := concat (map (fun fp => node_keys schema cfg (snd fp) rq) fps)).
+  unfold stats_table, tkeys. destruct (rq_columns rq) as [|c cs] eqn:Hc.
+  - assert (forall k, In k KL -> k = []) as Hall.
+    { intros k Hk. unfold KL in Hk. apply in_concat in Hk as [l [Hl Hk]].
+      apply in_map_iff in Hl as [[f node] [<- _]]. cbn [snd] in Hk. unfold node_keys, tkeys in Hk.
+      rewrite Hc in Hk. destruct (sub_backends node rq); [destruct Hk|].
+      destruct Hk as [<-|[]]. reflexivity. }
+    destruct KL as [|k0 KL'] eqn:EK.
+    + assert (XS = []) as ->; [|reflexivity].
+      unfold XS. rewrite all_ctxs_concat, map_map.
+      assert (forall fp, In fp fps -> all_ctxs schema cfg (snd fp) rq = []) as Hnil.
+      { intros [f node] Hin. cbn [snd]. apply all_ctxs_skipped.
+        destruct (sub_backends node rq) as [|i0 ids] eqn:E; [reflexivity|exfalso].
+        assert (In [] KL) as Hk; [|rewrite EK in Hk; destruct Hk].
+        unfold KL. apply in_concat. exists (node_keys schema cfg node rq). split.
+        - apply in_map_iff. exists (f, node). split; [reflexivity|exact Hin].
+        - unfold node_keys, tkeys. rewrite E, Hc. left; reflexivity. }
+      clear - Hnil. induction fps as [|fp rest IH]; cbn [map concat]; [reflexivity|].
+      rewrite (Hnil fp (or_introl eq_refl)), IH; [reflexivity|].
+      intros fp' H. apply Hnil. right; exact H.
+    + rewrite (all_nil_first_keys (k0 :: KL') Hall) by discriminate. reflexivity.
+  - assert (first_keys KL = first_keys (map (ctx_key rq) XS)) as ->.
+    { set (LS := map (fun fp : ofmt * dataset => map (ctx_key rq) (all_ctxs schema cfg (snd fp) rq)) fps).
+      assert (KL = concat (map first_keys LS)) as ->.
+      { unfold KL, LS. rewrite map_map. f_equal. apply map_ext. intros [f node]. cbn [snd].
+        unfold node_keys, tkeys. rewrite Hc.
+        destruct (sub_backends node rq) as [|i0 ids] eqn:E; [|reflexivity].
+        rewrite (all_ctxs_skipped schema cfg node rq E). reflexivity. }
+      assert (map (ctx_key rq) XS = concat LS) as ->.
+      { unfold XS, LS. rewrite all_ctxs_concat, concat_map, !map_map. reflexivity. }
+      apply first_keys_concat_first_keys. }
+    destruct (tab (first_keys (map (ctx_key rq) XS)) (group_accs rq XS)); reflexivity.
+Qed.
+
+(** *** the single node on a permuted dataset *)
+Lemma group_accs_perm rq xs ys k : Permutation xs ys -> group_accs rq xs k = group_accs rq ys k.
+Proof.
+  intros H. unfold group_accs. apply map_ext. intros st. apply acc_rows_perm.
+  unfold with_key. apply perm_filter, H.
+Qed.
+
+Lemma finalize_tab rq ks (g : key -> list acc) :
+  finalize_stats rq (tab ks g) =
+  map (fun k => (k, map2 (fun st a => final_stat (stat_kind st) a) (rq_stats rq) (g k))) ks.
+Proof. unfold finalize_stats, tab. rewrite map_map. reflexivity. Qed.
+
+Theorem stats_result_perm schema cfg ds ds' rq :
+  rq_stats rq <> [] -> Permutation ds ds' ->
+  Permutation (stats_result schema cfg ds rq) (stats_result schema cfg ds' rq) /\
+  (rq_columns rq = [] -> stats_result schema cfg ds rq = stats_result schema cfg ds' rq).
+Proof.
+  intros Hs Hp. rewrite !stats_result_raw, !(raw_stats_table schema cfg _ rq Hs).
+  pose proof (all_ctxs_perm schema cfg ds ds' rq Hp) as Hx.
+  set (xs := all_ctxs schema cfg ds rq) in *. set (xs' := all_ctxs schema cfg ds' rq) in *.
+  unfold stats_table. rewrite !finalize_tab.
+  rewrite (map_ext _ _ (fun k => f_equal (fun v => (k, map2 (fun st a => final_stat (stat_kind st) a) (rq_stats rq) v))
+                                       (group_accs_perm rq xs xs' k Hx))).
+  unfold tkeys. destruct (rq_columns rq) as [|c cs].
+  - split; reflexivity.
+  - split; [|discriminate]. apply Permutation_map. apply NoDup_Permutation; try apply first_keys_NoDup.
+    intros k. rewrite !first_keys_In. split; apply Permutation_in, Permutation_map;
+      [exact Hx|apply Permutation_sym; exact Hx].
+Qed.
+
+(** a Stats request: the lines of the cluster are the lines of the single node
+    (the engine keeps group lines in order of first occurrence, lmd sorts them by
+    key text afterwards: equality up to the order of the lines; one line = equal) *)
+Theorem cluster_stats_vs_single schema cfg fps ds rq :
+  rq_stats rq <> [] -> Permutation (concat (map snd fps)) ds ->
+  Permutation (cluster_stats rq (cluster_answers schema cfg fps rq)) (stats_result schema cfg ds rq) /\
+  (rq_columns rq = [] ->
+   cluster_stats rq (cluster_answers schema cfg fps rq) = stats_result schema cfg ds rq).
+Proof.
+  intros Hs Hp. rewrite (cluster_stats_exact schema cfg fps rq Hs).
+  apply stats_result_perm; assumption.
+Qed.
+
+(** ** 9. The responses *)
+Definition is_json (rq : request) : bool :=
+  match rq_format rq with FmtJSON => true | FmtWrapped => false end.
+
+Lemma respond_req_cases schema cfg ds rq :
+  respond_req schema cfg ds rq =
+  if is_json rq && all_unknown ds rq then RError 502
+  else match rq_stats rq with
+       | [] => RData (map h_out (fst (data_result schema cfg ds rq)))
+                     (map h_keys (fst (data_result schema cfg ds rq)))
+                     (snd (data_result schema cfg ds rq)) (nodup_str (failed_keys ds rq))
+       | _ => RStats (stats_result schema cfg ds rq) (nodup_str (failed_keys ds rq))
+       end.
+Proof.
+  unfold respond_req, is_json. destruct (_ && _); [reflexivity|].
+  destruct (rq_stats rq); [|reflexivity]. destruct (data_result schema cfg ds rq). reflexivity.
+Qed.
+
+Lemma cluster_core_cases schema cfg fps rq :
+  cluster_core schema cfg fps rq =
+  if is_json rq && all_unknown (concat (map snd fps)) rq then RError 502
+  else let answers := cluster_answers schema cfg fps rq in
+       let failed := cluster_failed (concat (map snd fps)) rq answers in
+       match rq_stats rq with
+       | [] => RData (map h_out (fst (cluster_data rq answers))) (map h_keys (fst (cluster_data rq answers)))
+                     (snd (cluster_data rq answers)) failed
+       | _ => RStats (cluster_stats rq answers) failed
+       end.
+Proof.
+  unfold cluster_core, is_json. destruct (_ && _); [reflexivity|]. cbv zeta.
+  destruct (rq_stats rq); [|reflexivity].
+  destruct (cluster_data rq (cluster_answers schema cfg fps rq)). reflexivity.
+Qed.
+
+Definition same_set (a b : list str) : Prop := forall id, In id a <-> In id b.
+
+(** [cluster] answers like [single], where [pool] are the matching rows of the dataset:
+    - same error code; or
+    - data: the same sort keys at every position, the same number of rows, the rows
+      are distinct rows of [pool] carrying these keys (ties of the order may be
+      resolved differently - the notion of QE/Run.v [rows_ok]), the same failed backends; or
+    - stats: the same lines up to their order, the same failed backends *)
+Definition answers_like (pool : list hit) (single cluster : response) : Prop :=
+  match single, cluster with
+  | RError a, RError b => b = a
+  | RData rows keys _ failed, RData rows' keys' _ failed' =>
+      keys' = keys /\ length rows' = length rows /\
+      (exists hs, subperm hs pool /\ rows' = map h_out hs /\ keys' = map h_keys hs) /\
+      same_set failed' failed
+  | RStats lines failed, RStats lines' failed' => Permutation lines' lines /\ same_set failed' failed
+  | _, _ => False
+  end.
+
+Definition resp_rows (r : response) : list (list value) := match r with RData rows _ _ _ => rows | _ => [] end.
+Definition resp_keys (r : response) : list (list keyval) := match r with RData _ keys _ _ => keys | _ => [] end.
+Definition resp_total (r : response) : option nat := match r with RData _ _ t _ => Some t | _ => None end.
+Definition resp_lines (r : response) : keyed (list statval) := match r with RStats l _ => l | _ => [] end.
+
+Theorem cluster_core_answers_like schema cfg (fps : list (ofmt * dataset)) (ds : dataset) rq :
+  Permutation (concat (map snd fps)) ds -> (0 <= rq_offset rq)%Z ->
+  (backend_limit rq <> None -> backends_sorted schema cfg ds rq) ->
+  answers_like (spec_hits schema cfg ds rq) (respond_req schema cfg ds rq) (cluster_core schema cfg fps rq).
+Proof.
+  intros Hp Hoff Hsorted. rewrite respond_req_cases, cluster_core_cases.
+  assert (all_unknown (concat (map snd fps)) rq = all_unknown ds rq) as Hu by (apply all_unknown_perm, Hp).
+  rewrite Hu. destruct (is_json rq && all_unknown ds rq); [reflexivity|].
+  cbv zeta. destruct (rq_stats rq) as [|st sts] eqn:Hs; cbn [answers_like].
+  - destruct (cluster_data_vs_single schema cfg fps ds rq Hs Hp Hoff Hsorted) as [Hk Hl].
+    split; [exact Hk|]. split; [rewrite !map_length; exact Hl|]. split.
+    + exists (fst (cluster_data rq (cluster_answers schema cfg fps rq))).
+      split; [apply (cluster_data_subperm schema cfg fps ds rq Hs Hp)|]. split; reflexivity.
+    + intros id. apply cluster_failed_spec, Hp.
+  - assert (rq_stats rq <> []) as Hne by (rewrite Hs; discriminate).
+    split; [apply (cluster_stats_vs_single schema cfg fps ds rq Hne Hp)|].
+    intros id. apply cluster_failed_spec, Hp.
+Qed.
+
+(** *** from [cluster_core] to [cluster_respond] *)
+Lemma map_snd_combine {A B} (l1 : list A) (l2 : list B) :
+  length l1 = length l2 -> map snd (combine l1 l2) = l2.
+Proof.
+  revert l2. induction l1 as [|a l1 IH]; intros [|b l2] H; try discriminate; [reflexivity|].
+  cbn [combine map snd]. f_equal. apply IH. cbn [length] in H. lia.
+Qed.
+
+Lemma cluster_parts me (parts : list dataset) rq :
+  map snd (combine (node_fmts me (length parts) rq) parts) = parts.
+Proof. apply map_snd_combine. unfold node_fmts. rewrite map_length, seq_length. reflexivity. Qed.
+
+Lemma cluster_fmts_wrapped me (parts : list dataset) rq :
+  rq_format rq = FmtWrapped ->
+  Forall (fun fp => fst fp = FmtWrapped) (combine (node_fmts me (length parts) rq) parts).
+Proof.
+  intros Hf. rewrite Forall_forall. intros [f node] Hin. apply in_combine_l in Hin.
+  unfold node_fmts in Hin. apply in_map_iff in Hin as [i [<- _]]. cbn [fst].
+  unfold node_fmt. rewrite Hf. destruct (Nat.eqb i me); reflexivity.
+Qed.
+
+(** ** 10. Non-vacuity *)
+From LMD Require Import Gen.Schema.
+
+(** three backends on two nodes.  Sort + Limit 2 + Offset 2: the answer is rows 3 and 4
+    of all seven rows sorted (c1, a1).  Applying the Offset on every node instead
+    (each node answering the client's request itself) would return a1, d1 and
+    nothing: c1 is lost.  The grouped Stats request gives the same lines; with the
+    nodes in another order the same lines in another order. *)
+Example cluster_example :
+  let h n st := [VStr n; VInt st] in
+  let bk k rows := mkBackend k k 0%N true [] [mkData (s "hosts") [s "name"; s "state"] rows] in
+  let A := bk (s "a") [h (s "a1") 0%Z; h (s "c1") 1%Z; h (s "e1") 0%Z] in
+  let B := bk (s "b") [h (s "b1") 1%Z; h (s "d1") 0%Z] in
+  let C := bk (s "c") [h (s "a2") 2%Z; h (s "f1") 0%Z] in
+  let cfg := mkCfg false true in
+  match parse_request schema true
+          [s "GET hosts"; s "Columns: name"; s "Sort: state desc"; s "Sort: name asc"; s "Limit: 2"; s "Offset: 2";
+           s "OutputFormat: wrapped_json"],
+        parse_request schema true
+          [s "GET hosts"; s "Columns: state"; s "Stats: state >= 0"; s "Stats: max state"; s "Stats: avg state";
+           s "OutputFormat: wrapped_json"] with
+  | Ok rq, Ok rqs =>
+      let expected := RData [[VStr (s "c1")]; [VStr (s "a1")]]
+                            [[KNum 1000%Z; KStr (s "c1")]; [KNum 0%Z; KStr (s "a1")]] 7%nat [] in
+      respond_req schema cfg [A; B; C] rq = expected /\
+      cluster_respond schema cfg 0%nat [[A; B]; [C]] rq = expected /\
+      cluster_respond schema cfg 1%nat [[C]; []; [B; A]] rq = expected /\
+      resp_rows (respond_req schema cfg [A; B] rq) ++ resp_rows (respond_req schema cfg [C] rq)
+        = [[VStr (s "a1")]; [VStr (s "d1")]] /\
+      let lines := [([s "0"], [SVal 4000%Z; SVal 0%Z; SAvg 0%Z 4%Z]);
+                    ([s "1"], [SVal 2000%Z; SVal 1000%Z; SAvg 2000%Z 2%Z]);
+                    ([s "2"], [SVal 1000%Z; SVal 2000%Z; SAvg 2000%Z 1%Z])] in
+      respond_req schema cfg [A; B; C] rqs = RStats lines [] /\
+      cluster_respond schema cfg 0%nat [[A; B]; [C]] rqs = RStats lines [] /\
+      resp_lines (cluster_respond schema cfg 1%nat [[C]; []; [B; A]] rqs) =
+        [([s "2"], [SVal 1000%Z; SVal 2000%Z; SAvg 2000%Z 1%Z]);
+         ([s "0"], [SVal 4000%Z; SVal 0%Z; SAvg 0%Z 4%Z]);
+         ([s "1"], [SVal 2000%Z; SVal 1000%Z; SAvg 2000%Z 2%Z])]
+  | _, _ => False
+  end.
+Proof. vm_compute. repeat split. Qed.
+
+Local Open Scope nat_scope.
+
+(** ** 11. [cluster_respond] *)
+Definition fps_of (me : nat) (parts : list dataset) (rq : request) : list (ofmt * dataset) :=
+  combine (node_fmts me (length parts) rq) parts.
+
+Lemma cluster_respond_cases schema cfg me (parts : list dataset) rq :
+  cluster_respond schema cfg me parts rq =
+  if is_json rq && all_unknown (concat parts) rq then RError 502
+  else let answers := cluster_answers schema cfg (fps_of me parts rq) rq in
+       let failed := cluster_failed (concat parts) rq answers in
+       match rq_stats rq with
+       | [] => RData (map h_out (fst (cluster_data rq answers))) (map h_keys (fst (cluster_data rq answers)))
+                     (snd (cluster_data rq answers)) failed
+       | _ => RStats (cluster_stats rq answers) failed
+       end.
+Proof.
+  unfold cluster_respond. rewrite cluster_core_cases. fold (fps_of me parts rq).
+  unfold fps_of. rewrite (cluster_parts me parts rq). reflexivity.
+Qed.
+
+Theorem cluster_answers_like_single schema cfg me (parts : list dataset) (ds : dataset) rq :
+  Permutation (concat parts) ds -> (0 <= rq_offset rq)%Z ->
+  (backend_limit rq <> None -> backends_sorted schema cfg ds rq) ->
+  answers_like (spec_hits schema cfg ds rq) (respond_req schema cfg ds rq)
+               (cluster_respond schema cfg me parts rq).
+Proof.
+  intros Hp Hoff Hsorted. unfold cluster_respond. apply cluster_core_answers_like; [|exact Hoff|exact Hsorted].
+  rewrite cluster_parts. exact Hp.
+Qed.
+
+Theorem cluster_total_count schema cfg me (parts : list dataset) (ds : dataset) rq :
+  rq_stats rq = [] -> Permutation (concat parts) ds ->
+  (rq_format rq = FmtWrapped \/ backend_limit rq = None) ->
+  resp_total (cluster_respond schema cfg me parts rq) = resp_total (respond_req schema cfg ds rq).
+Proof.
+  intros Hs Hp H. rewrite respond_req_cases, cluster_respond_cases.
+  rewrite (all_unknown_perm _ _ rq Hp). destruct (is_json rq && all_unknown ds rq); [reflexivity|].
+  cbv zeta. rewrite Hs. cbn [resp_total]. f_equal.
+  rewrite (cluster_data_total schema cfg (fps_of me parts rq) ds rq Hs).
+  - rewrite C06_total by tauto. reflexivity.
+  - unfold fps_of. rewrite cluster_parts. exact Hp.
+  - destruct H as [H|H]; [left; apply cluster_fmts_wrapped, H|right; exact H].
+Qed.
+
+Theorem cluster_stats_node_order schema cfg me (parts : list dataset) rq :
+  rq_stats rq <> [] ->
+  resp_lines (cluster_respond schema cfg me parts rq) =
+  resp_lines (respond_req schema cfg (concat parts) rq).
+Proof.
+  intros Hs. rewrite respond_req_cases, cluster_respond_cases.
+  destruct (is_json rq && all_unknown (concat parts) rq); [reflexivity|]. cbv zeta.
+  pose proof (cluster_stats_exact schema cfg (fps_of me parts rq) rq Hs) as H.
+  unfold fps_of in H at 2. rewrite cluster_parts in H.
+  destruct (rq_stats rq); [congruence|]. cbn [resp_lines]. exact H.
+Qed.
+
+Theorem cluster_stats_lines schema cfg me (parts : list dataset) (ds : dataset) rq :
+  rq_stats rq <> [] -> Permutation (concat parts) ds ->
+  Permutation (resp_lines (cluster_respond schema cfg me parts rq))
+              (resp_lines (respond_req schema cfg ds rq)) /\
+  (rq_columns rq = [] ->
+   resp_lines (cluster_respond schema cfg me parts rq) = resp_lines (respond_req schema cfg ds rq)).
+Proof.
+  intros Hs Hp. rewrite (cluster_stats_node_order schema cfg me parts rq Hs).
+  rewrite !respond_req_cases. rewrite (all_unknown_perm _ _ rq Hp).
+  destruct (is_json rq && all_unknown ds rq); [split; reflexivity|].
+  pose proof (stats_result_perm schema cfg (concat parts) ds rq Hs Hp) as H.
+  destruct (rq_stats rq); [congruence|]. cbn [resp_lines]. exact H.
+Qed.
+
+Theorem cluster_data_unsorted schema cfg me (parts : list dataset) rq :
+  rq_stats rq = [] -> rq_sort rq = [] -> (0 <= rq_offset rq)%Z ->
+  resp_rows (cluster_respond schema cfg me parts rq) =
+  resp_rows (respond_req schema cfg (concat parts) rq).
+Proof.
+  intros Hs E Hoff. rewrite respond_req_cases, cluster_respond_cases.
+  destruct (is_json rq && all_unknown (concat parts) rq); [reflexivity|]. cbv zeta.
+  rewrite Hs. cbn [resp_rows].
+  rewrite (cluster_data_unsorted_exact schema cfg (fps_of me parts rq) rq Hs E Hoff).
+  unfold fps_of. rewrite cluster_parts. reflexivity.
+Qed.
+
+Theorem cluster_data_plain schema cfg me (parts : list dataset) (ds : dataset) rq :
+  rq_stats rq = [] -> Permutation (concat parts) ds ->
+  rq_sort rq = [] -> rq_limit rq = None -> rq_offset rq = 0%Z ->
+  Permutation (resp_rows (cluster_respond schema cfg me parts rq))
+              (resp_rows (respond_req schema cfg ds rq)).
+Proof.
+  intros Hs Hp E Hl Ho. rewrite respond_req_cases, cluster_respond_cases.
+  rewrite (all_unknown_perm _ _ rq Hp). destruct (is_json rq && all_unknown ds rq); [reflexivity|].
+  cbv zeta. rewrite Hs. cbn [resp_rows]. apply Permutation_map.
+  apply (cluster_data_plain_perm schema cfg (fps_of me parts rq) ds rq Hs); try assumption.
+  unfold fps_of. rewrite cluster_parts. exact Hp.
+Qed.
+
+(** the merged rows are in the order of the Sort headers *)
+Theorem cluster_data_sorted schema cfg (fps : list (ofmt * dataset)) rq :
+  rq_stats rq = [] -> rq_sort rq <> [] ->
+  StronglySorted (lebP (hleb rq)) (fst (cluster_data rq (cluster_answers schema cfg fps rq))).
+Proof.
+  intros Hs E. unfold cluster_data. destruct (Z.ltb _ _); cbn [fst]; [constructor|].
+  apply window_sorted. rewrite (sort_hits_cons rq _ E).
+  apply isort_sorted_on with (pb := hit_wfb rq);
+    [apply hleb_total|apply hleb_trans_on|apply hit_wf_allp].
+  apply (merged_wf schema cfg fps rq Hs).
 Qed.
